@@ -73,6 +73,20 @@ func genC13(r *simrt.Rand, tier string) (Cfg, *Program) {
 		pf.CtrlOps = [2]int{1, 1}
 		pf.CtrlGapPct = 70
 	}
+	if len(pf.Ctrl) == 0 && r.Chance(10) {
+		// a warm pool with several idle goroutines kept (raised min-idle ratio, no expiry) and the
+		// consumer's pool resized while announcements keep arriving: an item handed to a pool
+		// goroutine that the resize retires at that moment is taken from the backend for nothing
+		pf.Conc = []int{3, 4, 8}
+		pf.Ratio = []int{50, 100, 100}
+		pf.Expiry = []int{0}
+		pf.WarmPct = 100
+		pf.Ctrl = []wop{{opTune, 6}, {opSettle, 1}}
+		pf.CtrlOps = [2]int{2, 6}
+		pf.CtrlGapPct = 30
+		pf.Tunes = []int{1, 2, 3, 4, 8}
+		pf.Adds = [2]int{3, 8}
+	}
 	if pf.Waiters[1] == 0 && len(pf.Ctrl) == 0 {
 		// (no worker-level barrier call in the program: WaitUntilFinished holds the worker's
 		// lock while it asks the backend for its length, which cannot work with a backend
